@@ -22,11 +22,12 @@ LEVEL_TEXT = ("Every placement of <= 2 (quick) / <= 3 (thorough) faults from {de
               "exception instance is recorded (with traceback) under an allowed key and nothing else is recorded.")
 LEVEL_NOTE = ("Bounded by the shape family and fault count. A content error (subclass of the skip signal) is required to be recorded only "
               "where the component has somewhere documented to record it (plugin types: itself; datasource: the specs it implements).")
-RULE = ("graph shape x fault placement x store_skips x observer mode; non-trivial = at least one fault actually fired (a body raised); "
+RULE = ("(9 hand-written graph shapes + every typed DAG with <= 4/5 nodes over {datasource, registry point, parser, combiner, plain} "
+        "with a single fault) x fault placement x store_skips x observer mode; non-trivial = at least one fault actually fired (a body raised); "
         "distinct cases = distinct (shape, placement, switches) descriptors, enumerated without repetition")
 ASSUMPTIONS = ["reference evaluator harness/graphs.py:ref_eval for the isolation clause",
                "ContentException: weaker reading (see LEVEL_NOTE)"]
-BOUNDS = {"quick": {"max_faults": 2}, "thorough": {"max_faults": 3}}
+BOUNDS = {"quick": {"max_faults": 2, "generated_shapes_max_nodes": 4}, "thorough": {"max_faults": 3, "generated_shapes_max_nodes": 5}}
 CAP_S = {"quick": 150, "thorough": 1500}
 
 KINDS = ["skip", "content", "cpe", "timeout", "error", "uneq"]
@@ -82,8 +83,49 @@ def apply_faults(nodes, placement):
     return out
 
 
+GEN_TYPES = ["datasource", "rp", "parser", "combiner", "plain"]
+GEN_KINDS = ["content", "cpe", "timeout", "error"]
+
+
+def gen_shapes(n):
+    """All typed DAGs with n nodes over GEN_TYPES with required edges only, subject to the typing rules of the
+    framework: a registry point's dependencies are its implementations (datasources only), a parser needs a first
+    dependency. Shapes are not hand-picked: this closes the gap between the shape family and 'every graph'."""
+    pairs = [(j, i) for i in range(n) for j in range(i)]
+    for types in itertools.product(GEN_TYPES, repeat=n):
+        if "rp" not in types and "datasource" not in types:
+            continue                      # plain-only graphs are covered by the hand-written shapes and by C01/C02
+        for bits in itertools.product([0, 1], repeat=len(pairs)):
+            deps = [[] for _ in range(n)]
+            for (j, i), b in zip(pairs, bits):
+                if b:
+                    deps[i].append(j)
+            ok = True
+            nodes = []
+            for i, t in enumerate(types):
+                if t == "rp":
+                    if any(types[j] != "datasource" for j in deps[i]):
+                        ok = False
+                        break
+                    nodes.append({"t": "rp", "impl": deps[i]})
+                elif t == "parser":
+                    if not deps[i]:
+                        ok = False
+                        break
+                    nodes.append({"t": "parser", "decl": deps[i]})
+                else:
+                    nodes.append({"t": t, "decl": deps[i]})
+            if ok:
+                yield nodes
+
+
 def units(tier, seed):
     us = []
+    nmax = 4 if tier == "quick" else 5
+    for n in range(2, nmax + 1):
+        chunks = 1 if n < 4 else (24 if n == 4 else 400)
+        for c in range(chunks):
+            us.append({"part": "gen", "n": n, "chunk": c, "of": chunks})
     for name in SHAPES():
         for ss in (False, True):
             for obs in ("none", "raising-global", "raising-typed"):
@@ -98,6 +140,9 @@ def allowed_keys(nodes, i):
     t = nodes[i]["t"]
     from harness.graphs import all_deps
     if t == "datasource":
+        # "the specs it implements": every registry point reachable through the chain of DEPENDENTS, whatever
+        # the types in between (a helper datasource feeding a parser feeding the implementing datasource is
+        # built into that spec); registry points that are merely siblings under a common consumer are foreign
         stack = [i]
         seen = set()
         while stack:
@@ -106,10 +151,10 @@ def allowed_keys(nodes, i):
                 if j in seen:
                     continue
                 if x in all_deps(nd):
+                    seen.add(j)
                     if nd["t"] == "rp":
                         out.add(j)
-                    elif nd["t"] == "datasource":
-                        seen.add(j)
+                    else:
                         stack.append(j)
     else:
         stack = [i]
@@ -280,6 +325,26 @@ def _l(x):
 
 def run_unit(unit, tier):
     res = Result()
+    if unit.get("part") == "gen":
+        for k, base in enumerate(gen_shapes(unit["n"])):
+            if k % unit["of"] != unit["chunk"]:
+                continue
+            sites = fault_sites(base)
+            placements = [[]] + [[((i, e), kind)] for (i, e) in sites for kind in GEN_KINDS]
+            for placement in placements:
+                nodes = apply_faults(base, placement)
+                case = {"shape": "generated", "nodes": nodes, "store_skips": bool(k % 2), "observer": "none"}
+                try:
+                    vio = check_case(case)
+                except Exception:
+                    import traceback
+                    vio = [("harness:raises", "no exception", traceback.format_exc()[-900:], {})]
+                res.case(nontrivial=bool(placement), outcome="%s" % ",".join(sorted(set(v[0] for v in vio))),
+                         sample=case if (placement and res.evals % 5000 == 11) else None)
+                for v in vio:
+                    res.violation(v[0], case, v[1], v[2], v[3])
+        res.maxi("generated_shape_nodes", unit["n"])
+        return res
     base = SHAPES()[unit["shape"]]
     sites = fault_sites(base)
     maxf = BOUNDS[tier]["max_faults"]
